@@ -13,6 +13,8 @@
  *   body <bodyLen> <seed> <off:len:total,…>  coap_block_build_body sequence
  *   srcv <szx> <bodyLen> <seed> <size1|-> <num:m[:len],…>   coap_handle_request_put_block sequence (SINGLE_BODY)
  *   srcv2 <maxBlk> <bodyLen> <seed> <size1|-> <num.m.szx,…>  the same with a block size per step and a server block size limit
+ *   srcv3 <maxBlk> <len1> <seed1> <len2> <seed2> <size1:0|1> <t.num.m.szx.r,…>   two interleaved Block1 transfers to ONE resource,
+ *                                              told apart by Request-Tag only (r: 0 absent, 1 EMPTY, 2..9 / 10..17 = 1..8 bytes)
  *   crcv <single> <bodyLen> <seed> <size2|-> <num.m.szx.etag.fmt[.len],…>   coap_handle_response_get_block sequence (client, Block2)
  *   xmit2 <szx> <bodyLen> <seed> <mtu2> <num.szx,…>        coap_add_data_large_response + coap_handle_request_send_block sequence (server, Block2)
  *   xmit1 <cszx|-> <bodyLen> <seed> <mtu> <code.num.szx|code,…>   coap_add_data_large_request + coap_send + coap_handle_response_send_block sequence (client, Block1)
@@ -354,6 +356,84 @@ static void do_srcv2(unsigned maxBlk, size_t bodyLen, unsigned seed, long size1,
   free(body);
 }
 
+/* Request-Tag for code r: 0 = no option, 1 = EMPTY option, 2..9 = 1..8 bytes 0x71.., 10..17 = 1..8 bytes 0x51.. */
+static int rtag_of(unsigned r, uint8_t *out) {
+  if (r == 0) return -1;
+  if (r == 1) return 0;
+  if (r <= 9) { for (unsigned i = 0; i < r - 1; i++) out[i] = (uint8_t)(0x71 + i); return (int)(r - 1); }
+  for (unsigned i = 0; i < r - 9; i++) out[i] = (uint8_t)(0x51 + i);
+  return (int)(r - 9);
+}
+
+/* srcv3 <maxBlk> <len1> <seed1> <len2> <seed2> <size1:0|1> <t.num.m.szx.r,…> : every step is a Block1 PUT to resource "b"
+ * carrying the genuine slice (num, szx) of body t (0|1) and the Request-Tag coded by r; printed per step: d…/s<code> as
+ * srcv2, then /<number of lg_srcv on the session> */
+static void do_srcv3(unsigned maxBlk, size_t len1, unsigned seed1, size_t len2, unsigned seed2, int withSize1, char *seq) {
+  sim_reset();
+  sim_log_enabled = 0;
+  uint8_t *bodies[2] = {mk_body(len1, seed1), mk_body(len2, seed2)};
+  size_t lens[2] = {len1, len2};
+  coap_context_t *ctx = sim_new_context();
+  coap_session_t *s;
+  coap_resource_t *res = coap_resource_init(coap_make_str_const("b"), 0);
+  coap_string_t *uri = coap_new_string(1);
+  char *tok, *save = NULL;
+  int first = 1, k = 0;
+  coap_register_request_handler(res, COAP_REQUEST_PUT, hnd_dummy);
+  coap_add_resource(ctx, res);
+  coap_context_set_block_mode(ctx, COAP_BLOCK_USE_LIBCOAP | COAP_BLOCK_SINGLE_BODY);
+  if (maxBlk) coap_context_set_max_block_size(ctx, (size_t)1 << (maxBlk + 4));
+  s = sim_new_client(ctx, 5683);
+  s->block_mode = ctx->block_mode;
+  uri->s[0] = 'b';
+  for (tok = strtok_r(seq, ",", &save); tok; tok = strtok_r(NULL, ",", &save), k++) {
+    unsigned t, num, m, szx, r;
+    uint8_t buf[4], tk[2] = {0x79, (uint8_t)k}, rt[8];
+    coap_pdu_t *req, *rsp;
+    int added = 0, ret, rl, n = 0;
+    coap_lg_srcv_t *free_lg = NULL, *q;
+    size_t chunk, off, plen;
+    if (sscanf(tok, "%u.%u.%u.%u.%u", &t, &num, &m, &szx, &r) != 5 || szx > 6 || t > 1 || r > 17 || m > 1) { printf("bad-op"); break; }
+    chunk = (size_t)1 << (szx + 4);
+    off = (size_t)num * chunk;
+    if (off > lens[t]) off = lens[t];
+    plen = lens[t] - off < chunk ? lens[t] - off : chunk;
+    req = coap_pdu_init(COAP_MESSAGE_CON, COAP_REQUEST_CODE_PUT, (coap_mid_t)(100 + k), 2048);
+    rsp = coap_pdu_init(COAP_MESSAGE_ACK, 0, (coap_mid_t)(100 + k), 2048);
+    coap_add_token(req, 2, tk);
+    coap_add_token(rsp, 2, tk);
+    coap_add_option(req, COAP_OPTION_URI_PATH, 1, (const uint8_t *)"b");
+    coap_add_option(req, COAP_OPTION_BLOCK1, coap_encode_var_safe(buf, sizeof(buf), (num << 4) | (m << 3) | szx), buf);
+    if (withSize1) coap_add_option(req, COAP_OPTION_SIZE1, coap_encode_var_safe(buf, sizeof(buf), (unsigned)lens[t]), buf);
+    rl = rtag_of(r, rt);
+    if (rl >= 0) coap_add_option(req, COAP_OPTION_RTAG, (size_t)rl, rt);
+    if (plen) coap_add_data(req, plen, bodies[t] + off);
+    coap_lock_lock(ctx, break);
+    ret = coap_handle_request_put_block(ctx, s, req, rsp, res, uri, NULL, &added, &free_lg);
+    if (!first) fputc(',', stdout);
+    first = 0;
+    if (ret == 0) {
+      size_t l = 0, o = 0, tt = 0; const uint8_t *d = NULL;
+      coap_get_data_large(req, &l, &d, &o, &tt);
+      printf("d%zu:%zu:%zu:%08x", o, l, tt, sim_fnv(d, l));
+      if (free_lg) {
+        LL_DELETE(s->lg_srcv, free_lg);
+        coap_block_delete_lg_srcv(s, free_lg);
+      }
+    } else
+      printf("s%d", (int)rsp->code);
+    LL_FOREACH(s->lg_srcv, q) n++;
+    printf("/%d", n);
+    coap_lock_unlock(ctx);
+    coap_delete_pdu(req);
+    coap_delete_pdu(rsp);
+  }
+  coap_delete_string(uri);
+  sim_free_all(0);
+  sim_log_enabled = 1;
+  free(bodies[0]); free(bodies[1]);
+}
+
 /* crcv <single> <bodyLen> <seed> <size2|-> <num.m.szx.etag.fmt[.len],…> : the CLIENT's Block2 receive path.  Every item is a
  * 2.05 response (NON, application token) carrying Block2 (num, m, szx), the genuine slice of the body (or its first <len>
  * bytes), ETag = one byte <etag> (0 = no option), Content-Format <fmt> (0 = no option), Size2 as given.  Printed per item:
@@ -633,6 +713,9 @@ static void step(char *line) {
   } else if (!strcmp(w[0], "srcv2") && n == 6) {
     do_srcv2((unsigned)strtoul(w[1], 0, 10), strtoull(w[2], 0, 10), (unsigned)strtoul(w[3], 0, 10),
              strcmp(w[4], "-") ? atol(w[4]) : -1, w[5]);
+  } else if (!strcmp(w[0], "srcv3") && n == 8) {
+    do_srcv3((unsigned)strtoul(w[1], 0, 10), strtoull(w[2], 0, 10), (unsigned)strtoul(w[3], 0, 10), strtoull(w[4], 0, 10),
+             (unsigned)strtoul(w[5], 0, 10), atoi(w[6]), w[7]);
   } else if (!strcmp(w[0], "crcv") && n == 6) {
     do_crcv(atoi(w[1]), strtoull(w[2], 0, 10), (unsigned)strtoul(w[3], 0, 10), strcmp(w[4], "-") ? atol(w[4]) : -1, w[5]);
   } else if (!strcmp(w[0], "xmit2") && n == 6) {
